@@ -28,6 +28,7 @@ type c03Item struct {
 	Fn    string  `json:"fn"`
 	Shape string  `json:"shape"` // star | bare | nested | expr | map
 	Arg   string  `json:"arg"`
+	Arg2  string  `json:"arg2,omitempty"` // sumdiff: sum(Arg) - sum(Arg2), two different expression arguments in one item
 	P     float64 `json:"p,omitempty"`    // percentile
 	Nth   int     `json:"nth,omitempty"`  // nth_value
 	Flag  string  `json:"flag,omitempty"` // deduplicate: none | true | false
@@ -62,20 +63,32 @@ type c03Case struct {
 
 // pspread is a compound item with two calls of one parameterised aggregate that differ only in the
 // parameter: percentile(x, 1) - percentile(x, 0), i.e. max - min (both percentiles are unambiguous).
-var c03NumFns = []string{"count", "sum", "avg", "min", "max", "stddev", "stddevs", "var", "vars", "median", "percentile", "pspread"}
+var c03NumFns = []string{"count", "sum", "avg", "min", "max", "stddev", "stddevs", "var", "vars", "median", "percentile", "pspread", "sumdiff"}
 var c03PosFns = []string{"first_value", "last_value", "nth_value", "collect"}
 var c03AllFns = append(append(append([]string{}, c03NumFns...), c03PosFns...), "deduplicate", "merge_agg")
 
 // order-insensitive functions (statement: "order-insensitive aggregates are invariant under
 // permutation of the batch")
 var c03OrderFree = map[string]bool{"count": true, "sum": true, "avg": true, "min": true, "max": true, "stddev": true,
-	"stddevs": true, "var": true, "vars": true, "median": true, "percentile": true, "pspread": true}
+	"stddevs": true, "var": true, "vars": true, "median": true, "percentile": true, "pspread": true, "sumdiff": true}
 
 var c03Exprs = []string{"v*2", "v+w", "v-w", "v*w", "v+1.5", "o.x+v", "o.x*2"}
 
 func c03GenItem(fn string, n int, r *rand.Rand) *c03Item {
 	it := &c03Item{Fn: fn}
 	switch {
+	case fn == "sumdiff":
+		// each argument reads a single column, so a NULL input is simply skipped by its own sum
+		args := []string{"v*2", "w*3", "v+1.5", "o.x*2", "w-1", "v", "w"}
+		i := r.Intn(5) // at least one of the two is an expression
+		j := r.Intn(len(args) - 1)
+		if j >= i {
+			j++
+		}
+		if r.Intn(2) == 0 {
+			i, j = j, i
+		}
+		it.Shape, it.Arg, it.Arg2 = "expr", args[i], args[j]
 	case fn == "merge_agg":
 		switch r.Intn(5) {
 		case 0, 1:
@@ -129,6 +142,8 @@ func c03GenItem(fn string, n int, r *rand.Rand) *c03Item {
 		it.SQL = fmt.Sprintf("percentile(%s, %s)", it.Arg, strconv.FormatFloat(it.P, 'g', -1, 64))
 	case "pspread":
 		it.SQL = fmt.Sprintf("percentile(%s, 1) - percentile(%s, 0)", it.Arg, it.Arg)
+	case "sumdiff":
+		it.SQL = fmt.Sprintf("sum(%s) - sum(%s)", it.Arg, it.Arg2)
 	case "nth_value":
 		it.Nth = 1 + r.Intn(n+1)
 		it.SQL = fmt.Sprintf("nth_value(%s, %d)", it.Arg, it.Nth)
